@@ -329,7 +329,7 @@ Ok_C05 ==
          pre.sess[s].uuid = cur.sess[s].uuid =>
          \A e \in DOMAIN pre.sess[s].ents :
            LET E0 == pre.sess[s].ents[e]
-               byOwner == HasActor /\ SidOf(pre, Actor) = s /\ PidOf(pre, Actor) = E0.owner /\ ev.step \in {"Req", "Proc", "Disc"}
+               byOwner == HasActor /\ SidOf(pre, Actor) = s /\ PidOf(pre, Actor) = E0.owner /\ ev.step \in {"Req", "Proc", "Disc", "Wire"}
            IN /\ e \notin DOMAIN cur.sess[s].ents => byOwner
               /\ e \in DOMAIN cur.sess[s].ents =>
                    /\ cur.sess[s].ents[e].owner = E0.owner
